@@ -274,6 +274,7 @@ func Accept(ft *FileTrace, counting bool) []Problem {
 		case "unlock":
 			if holder == n.A {
 				if phase != "written" && phase != "loaded" && phase != "locked" && phase != "failed" {
+					// ("wrote" without the truncate is an incomplete section too)
 					add(i, "C14:incomplete-section", fmt.Sprintf("unlock in phase %s (event %d)", phase, n.Raw))
 				}
 				holder, phase = 0, ""
@@ -317,19 +318,21 @@ func Accept(ft *FileTrace, counting bool) []Problem {
 				}
 			}
 			ap, phase = n, "applied"
-		case "trunc":
-			if phase != "applied" {
-				add(i, "C14:order", fmt.Sprintf("truncate in phase %s (event %d)", phase, n.Raw))
-			}
-			content, known, phase = "", true, "truncd"
 		case "write":
-			if phase != "truncd" {
+			// UpdateFullStatus writes the new record in place ...
+			if phase != "applied" {
 				add(i, "C14:order", fmt.Sprintf("write in phase %s (event %d)", phase, n.Raw))
 			}
 			if n.H != ap.H {
 				add(i, "C14:write-differs", fmt.Sprintf("record written differs from the record applied (event %d)", n.Raw))
 			}
-			content, known, phase = n.H, true, "written"
+			content, known, phase = n.H, true, "wrote"
+		case "trunc":
+			// ... and then cuts the file to the new length (a stale tail is invisible to the first-value loader)
+			if phase != "wrote" {
+				add(i, "C14:order", fmt.Sprintf("truncate in phase %s (event %d)", phase, n.Raw))
+			}
+			phase = "written"
 		case "load":
 			if n.OK {
 				if known && n.H != content {
